@@ -254,8 +254,6 @@ class ConstEval:
                     if not isinstance(src, dict):
                         return Unknown(f"** of non-dict at line {node.lineno}")
                     for kk, vv in src.items():
-                        if kk in out and not _same(out[kk], vv):
-                            out.anomalies.append(("override", kk, (mod, v.lineno), "** overrides an earlier different value"))
                         out[kk] = vv
                         out.prov[kk] = src.prov.get(kk, (mod, v.lineno)) if isinstance(src, PDict) else (mod, v.lineno)
                     if isinstance(src, PDict):
@@ -271,8 +269,6 @@ class ConstEval:
                     return Unknown("unhashable key")
                 if key in explicit:
                     out.anomalies.append(("duplicate", key, (mod, k.lineno), "key written twice in one dict display"))
-                elif key in out and not _same(out[key], val):
-                    out.anomalies.append(("override", key, (mod, k.lineno), "explicit key overrides a different ** value"))
                 explicit.add(key)
                 out[key] = val
                 out.prov[key] = (mod, k.lineno)
@@ -528,7 +524,7 @@ class ConstEval:
         if fn is None or depth > 4 or fn.decorator_list:
             return Unknown(f"call {ref.name}")
         a = fn.args
-        if a.vararg or a.kwarg or a.posonlyargs:
+        if a.kwarg or a.posonlyargs:
             return Unknown(f"call {ref.name}: signature")
         names = [x.arg for x in a.args]
         env = self.module_env(ref.module)
@@ -540,10 +536,12 @@ class ConstEval:
         for n, d in zip([x.arg for x in a.kwonlyargs], a.kw_defaults):
             if d is not None:
                 loc[n] = self.eval(ref.module, d, env)
-        if len(args) > len(names):
+        if len(args) > len(names) and not a.vararg:
             return Unknown(f"call {ref.name}: arity")
         for n, v in zip(names, args):
             loc[n] = v
+        if a.vararg:
+            loc[a.vararg.arg] = tuple(args[len(names):])
         for k, v in kwargs.items():
             if k not in names and k not in [x.arg for x in a.kwonlyargs]:
                 return Unknown(f"call {ref.name}: keyword {k}")
@@ -575,6 +573,19 @@ class ConstEval:
                     raise _Unfoldable(v.why)
                 for t in st.targets:
                     loc[t.id] = v
+                continue
+            if isinstance(st, ast.Assign) and len(st.targets) == 1 and isinstance(st.targets[0], (ast.Tuple, ast.List)) and all(isinstance(t, ast.Name) for t in st.targets[0].elts):
+                v = self.eval(mod, st.value, env, loc)
+                if isinstance(v, Unknown):
+                    raise _Unfoldable(v.why)
+                try:
+                    vals = list(v)
+                except TypeError:
+                    raise _Unfoldable("unpacking a non-iterable") from None
+                if len(vals) != len(st.targets[0].elts):
+                    raise _Unfoldable("unpacking arity")
+                for t, x in zip(st.targets[0].elts, vals):
+                    loc[t.id] = x
                 continue
             if isinstance(st, ast.Assign) and len(st.targets) == 1 and isinstance(st.targets[0], ast.Subscript) and isinstance(st.targets[0].value, ast.Name) and st.targets[0].value.id in loc:
                 k = self.eval(mod, st.targets[0].slice, env, loc)
